@@ -63,7 +63,7 @@ Proof. unfold dot. simpl. ring. Qed.
 
 (* ------------------------------------------------------------------ labellings *)
 Lemma eps_failures_length eps cm vals fails : length (eps_failures eps cm vals fails) = length vals.
-Proof. unfold eps_failures. apply map_length. Qed.
+Proof. unfold eps_failures. destruct (no_success vals fails); apply map_length. Qed.
 
 Lemma pf_labelling_length eps om cm vals fails : length (pf_labelling eps om cm vals fails) = length vals.
 Proof.
@@ -88,18 +88,22 @@ Qed.
 Definition eps_threshold (eps : Q) (cm : nat) (vals : list row) (fails : list bool) : Q :=
   eps_no_bounds eps cm (select (map negb fails) vals).
 
+(* with no row reported as a success nothing is labelled by the threshold *)
 Lemma eps_failures_nth eps cm vals fails j : (j < length vals)%nat ->
-  nth j (eps_failures eps cm vals fails) false = Qle_bool (eps_threshold eps cm vals fails) (at_ vals j cm).
+  nth j (eps_failures eps cm vals fails) false =
+  negb (no_success vals fails) && Qle_bool (eps_threshold eps cm vals fails) (at_ vals j cm).
 Proof.
-  intros H. unfold eps_failures, eps_threshold, at_.
-  set (f := fun r : row => Qle_bool (eps_no_bounds eps cm (select (map negb fails) vals)) (nth cm r 0)).
-  rewrite (nth_indep _ false (f [])) by (rewrite map_length; exact H).
-  rewrite map_nth. reflexivity.
+  intros H. unfold eps_failures, eps_threshold, at_. destruct (no_success vals fails); cbn [negb andb].
+  - set (f := fun _ : row => false). rewrite (nth_indep _ false (f [])) by (rewrite map_length; exact H).
+    rewrite map_nth. reflexivity.
+  - set (f := fun r : row => Qle_bool (eps_no_bounds eps cm (select (map negb fails) vals)) (nth cm r 0)).
+    rewrite (nth_indep _ false (f [])) by (rewrite map_length; exact H).
+    rewrite map_nth. reflexivity.
 Qed.
 
 Lemma merged_nth eps cm vals fails j : length vals = length fails -> (j < length vals)%nat ->
   nth j (map (fun p : bool * bool => fst p || snd p) (combine (eps_failures eps cm vals fails) fails)) false =
-  Qle_bool (eps_threshold eps cm vals fails) (at_ vals j cm) || nth j fails false.
+  negb (no_success vals fails) && Qle_bool (eps_threshold eps cm vals fails) (at_ vals j cm) || nth j fails false.
 Proof.
   intros HL H.
   set (g := fun p : bool * bool => fst p || snd p).
@@ -169,12 +173,18 @@ Proof.
   split; [congruence|]. split; [|split; [reflexivity|]].
   - cbn -[col pf_labelling]. rewrite !select_combine. reflexivity.
   - split; [|split; [|split]].
-    + intros j Hj Hlab. apply Hsub in Hlab. rewrite eps_failures_nth in Hlab by lia. apply Qle_bool_iff. exact Hlab.
+    + intros j Hj Hlab. apply Hsub in Hlab. rewrite eps_failures_nth in Hlab by lia. apply andb_true_iff in Hlab.
+      apply Qle_bool_iff. exact (proj2 Hlab).
     + intros j Hj Hlt. destruct (nth j (pf_labelling eps om cm vals fails) false) eqn:E; [|reflexivity].
-      apply Hsub in E. rewrite eps_failures_nth in E by lia. apply Qle_bool_iff in E. lra.
+      apply Hsub in E. rewrite eps_failures_nth in E by lia. apply andb_true_iff in E. destruct E as [_ E].
+      apply Qle_bool_iff in E. lra.
     + rewrite Hcnt, Hv. unfold min_success. lia.
     + intros a b Ha Hthr Hna Hb. apply Hord; [|exact Hna|exact Hb].
-      rewrite eps_failures_nth by lia. apply Qle_bool_iff. exact Hthr.
+      rewrite eps_failures_nth by lia.
+      assert (Hb' : (b < n)%nat).
+      { destruct (Nat.lt_ge_cases b n) as [Hlt|Hge]; [exact Hlt|]. rewrite nth_overflow in Hb by lia. discriminate. }
+      pose proof (Hsub b Hb) as Eb. rewrite eps_failures_nth in Eb by lia. apply andb_true_iff in Eb. destruct Eb as [-> _].
+      apply Qle_bool_iff. exact Hthr.
 Qed.
 
 (* ------------------------------------------------------------------ columns, Parzen-estimator path *)
@@ -218,7 +228,7 @@ Proof.
   - intros j Hj Hlab. unfold eps_labelling in Hlab.
     destruct (min_successes om vals _ (eq_sym (merged_length eps cm vals fails HL))) as (_ & Hsub & _).
     apply Hsub in Hlab. rewrite merged_nth in Hlab by lia. apply orb_true_iff in Hlab.
-    destruct Hlab as [E|E]; [right; apply Qle_bool_iff; exact E|left; exact E].
+    destruct Hlab as [E|E]; [right; apply andb_true_iff in E; apply Qle_bool_iff; exact (proj2 E)|left; exact E].
   - assert (H := labelling_keeps_minimum eps om cm vals fails HL). rewrite Hf in H. exact H.
 Qed.
 
@@ -332,35 +342,16 @@ Proof.
   - destruct (Qeq_bool v x) eqn:E; [|reflexivity]. apply Qeq_bool_iff in E. exfalso. apply (Hd v); [left; reflexivity|exact E].
 Qed.
 
-Lemma has_success_true fails : has_success fails = true <-> exists j, (j < length fails)%nat /\ nth j fails false = false.
-Proof.
-  unfold has_success. rewrite existsb_exists. split.
-  - intros (b & Hin & Hb). destruct b; [discriminate|]. apply In_nth with (d := false) in Hin.
-    destruct Hin as (j & Hj & E). exists j. split; assumption.
-  - intros (j & Hj & E). exists false. split; [|reflexivity]. rewrite <- E. apply nth_In. exact Hj.
-Qed.
-
-(* the wrappers return data exactly when some observation is not a reported failure (epsilon-constraint method) *)
-Theorem wrapper_defined eps om cm pts vals vars fails lie :
-  (has_success fails = true ->
-     filter_gp_run (EpsC om cm eps) pts vals vars fails lie = Some (filter_gp (EpsC om cm eps) pts vals vars fails lie) /\
-     filter_spe_run (EpsC om cm eps) pts vals fails lie = Some (filter_spe (EpsC om cm eps) pts vals fails lie)) /\
-  (has_success fails = false ->
-     filter_gp_run (EpsC om cm eps) pts vals vars fails lie = None /\
-     filter_spe_run (EpsC om cm eps) pts vals fails lie = None).
-Proof. unfold filter_gp_run, filter_spe_run. cbn [reads_successes andb]. split; intros ->; split; reflexivity. Qed.
-
 (* GP path: at least min(5, n) rows are handed on; the three outputs are equally long and are the (point, optimising
    value, optimising variance) triples of the rows kept, in order *)
-Theorem wrapper_gp_keeps_minimum eps om cm n pts vals vars fails lie o : aligned n pts vals vars fails ->
-  filter_gp_run (EpsC om cm eps) pts vals vars fails lie = Some o ->
+Theorem wrapper_gp_keeps_minimum eps om cm n pts vals vars fails lie : aligned n pts vals vars fails ->
+  let o := filter_gp (EpsC om cm eps) pts vals vars fails lie in
   (Nat.min 5 n <= length (o_pts o))%nat /\
   length (o_pts o) = arr_len (o_vals o) /\ arr_len (o_vals o) = arr_len (o_vars o) /\
   exists keepm, length keepm = n /\ count_true keepm = length (o_pts o) /\
     o_pts o = select keepm pts /\ o_vals o = A1 (select keepm (col om vals)) /\ o_vars o = A1 (select keepm (col om vars)).
 Proof.
-  intros Hal Hrun. unfold filter_gp_run in Hrun. destruct (_ && _); [discriminate|].
-  assert (E : o = filter_gp (EpsC om cm eps) pts vals vars fails lie) by congruence. rewrite E. clear E Hrun o.
+  intros Hal. cbv zeta.
   pose proof (filter_gp_lengths (EpsC om cm eps) n pts vals vars fails lie Hal) as HL. cbv zeta in HL.
   destruct HL as (L1 & L2 & _).
   pose proof (filter_gp_columns_eps eps om cm n pts vals vars fails lie Hal) as HC. cbv zeta in HC.
@@ -377,16 +368,15 @@ Qed.
 (* Parzen-estimator path: points untouched; every row carries its own optimising value or the lie value; at least
    min(5, n) rows carry their own value, and when the lie value differs from every observed value at least min(5, n)
    rows are not the lie *)
-Theorem wrapper_spe_keeps_minimum eps om cm n pts vals fails lie o : aligned n pts vals vals fails ->
-  filter_spe_run (EpsC om cm eps) pts vals fails lie = Some o ->
+Theorem wrapper_spe_keeps_minimum eps om cm n pts vals fails lie : aligned n pts vals vals fails ->
+  let o := filter_spe (EpsC om cm eps) pts vals fails lie in
   fst o = pts /\ length (snd o) = n /\
   (forall j, (j < n)%nat -> nth j (snd o) 0 = at_ vals j om \/ nth j (snd o) 0 = nth om lie 0) /\
   (Nat.min 5 n <= own_count (col om vals) (snd o))%nat /\
   ((forall j, (j < n)%nat -> ~ at_ vals j om == nth om lie 0) ->
    (Nat.min 5 n <= not_lie_count (nth om lie 0%Q) (snd o))%nat).
 Proof.
-  intros Hal Hrun. unfold filter_spe_run in Hrun. destruct (_ && _); [discriminate|].
-  assert (E : o = filter_spe (EpsC om cm eps) pts vals fails lie) by congruence. rewrite E. clear E Hrun o.
+  intros Hal. cbv zeta.
   pose proof (filter_spe_columns_eps eps om cm n pts vals fails lie Hal) as HC. cbv zeta in HC.
   destruct HC as (Hpts & Llab & Hnth & _ & Hmin).
   pose proof (filter_spe_lengths (EpsC om cm eps) n pts vals fails lie Hal) as HL. cbv zeta in HL. destruct HL as (_ & L2).
@@ -400,14 +390,44 @@ Proof.
     rewrite col_nth by exact Hj. apply Hd. lia.
 Qed.
 
-(* the clause "for every failure mask" is false as it stands: when every observation is a reported failure the wrappers
-   hand on nothing at all (the running code raises ValueError from numpy.nanargmin of an empty array) *)
-Theorem wrapper_all_failed_refuted :
-  ~ (forall eps om cm pts vals vars fails lie, length pts = length vals -> length vars = length vals -> length fails = length vals ->
-       (exists o, filter_gp_run (EpsC om cm eps) pts vals vars fails lie = Some o) /\
-       (exists o, filter_spe_run (EpsC om cm eps) pts vals fails lie = Some o)).
+(* every observation a reported failure (n of them, any n): nothing is labelled by the threshold, the repair promotes the
+   min(5, n) lowest rows of the optimising metric; the GP is handed all n rows, the Parzen estimator exactly min(5, n)
+   rows with their own value when the lie value differs from every observed value *)
+Theorem wrapper_all_failed eps om cm n pts vals vars lie : aligned n pts vals vars (repeat true n) ->
+  let fails := repeat true n in
+  eps_failures eps cm vals fails = repeat false n /\
+  o_pts (filter_gp (EpsC om cm eps) pts vals vars fails lie) = pts /\
+  ((forall j, (j < n)%nat -> ~ at_ vals j om == nth om lie 0) ->
+   not_lie_count (nth om lie 0%Q) (snd (filter_spe (EpsC om cm eps) pts vals fails lie)) = Nat.min 5 n).
 Proof.
-  intros H.
-  destruct (H (1#2) 0%nat 1%nat [[0]; [1]] [[1; 2]; [2; 1]] [[0; 0]; [0; 0]] [true; true] [9; 9] eq_refl eq_refl eq_refl) as ((o & Ho) & _).
-  vm_compute in Ho. discriminate.
+  intros (Hp & Hv & Hs & Hf). cbv zeta.
+  assert (Hsel : forall (l : list row), select (map negb (repeat true (length l))) l = []).
+  { induction l as [|x l IH]; [reflexivity|exact IH]. }
+  assert (Hno : no_success vals (repeat true n) = true) by (unfold no_success; rewrite <- Hv, Hsel; reflexivity).
+  assert (Hef : eps_failures eps cm vals (repeat true n) = repeat false n).
+  { unfold eps_failures. rewrite Hno, <- Hv. clear. induction vals as [|x l IH]; [reflexivity|]. cbn. f_equal. exact IH. }
+  assert (Hcnt0 : forall k, count_true (map negb (repeat false k)) = k).
+  { induction k as [|k IH]; [reflexivity|]. cbn [repeat map negb]. rewrite count_true_cons, IH. reflexivity. }
+  assert (HcntT : forall k, count_true (map negb (repeat true k)) = O).
+  { induction k as [|k IH]; [reflexivity|]. cbn [repeat map negb]. rewrite count_true_cons, IH. reflexivity. }
+  split; [exact Hef|]. split.
+  - cbn -[pf_labelling]. unfold pf_labelling. rewrite Hef.
+    assert (HL : length vals = length (repeat false n)) by (rewrite repeat_length; exact Hv).
+    destruct (min_successes om vals (repeat false n) HL) as (L & Hsub & _ & _).
+    assert (Hall : force_min om vals (repeat false n) = repeat false n).
+    { apply nth_ext with (d := false) (d' := false); [rewrite L; reflexivity|]. intros j Hj.
+      destruct (nth j (force_min om vals (repeat false n)) false) eqn:E; [apply Hsub in E|]; rewrite ?nth_repeat in *; congruence. }
+    rewrite Hall. clear - Hp. revert pts Hp. induction n as [|k IH]; intros [|x pts] Hp; try discriminate; [reflexivity|].
+    cbn. f_equal. apply IH. cbn in Hp. lia.
+  - intros Hd. cbn -[col eps_labelling not_lie_count set_where Nat.min].
+    assert (HLf : length vals = length (repeat true n)) by (rewrite repeat_length; exact Hv).
+    rewrite not_lie_count_set_where.
+    + unfold eps_labelling. set (merged := map _ (combine _ _)).
+      assert (Hm : merged = repeat true n).
+      { unfold merged. rewrite Hef. clear. induction n as [|k IH]; [reflexivity|]. cbn. f_equal. exact IH. }
+      rewrite Hm. destruct (min_successes om vals (repeat true n) HLf) as (_ & _ & Hc & _). cbv zeta in Hc.
+      rewrite Hc, HcntT, repeat_length. unfold min_success. lia.
+    + rewrite col_length, eps_labelling_length by exact HLf. reflexivity.
+    + intros v Hin. apply In_nth with (d := 0) in Hin. destruct Hin as (j & Hj & <-). rewrite col_length in Hj.
+      rewrite col_nth by exact Hj. apply Hd. lia.
 Qed.
